@@ -20,9 +20,9 @@ RULE = (
     "or both diagrams are non-empty and different."
 )
 ASSUMPTIONS = [
-    "tolerance 1e-6 x coordinate scale x number of points: persim stores the directions in float32",
+    "tolerance 1e-10 x coordinate scale x number of points (double precision throughout)",
 ]
-RT = 1e-6
+RT = 1e-10
 
 
 def bounds(tier):
@@ -247,7 +247,7 @@ def run_shard(ctx):
         for i, j in np.argwhere(ok & ok.T & (np.abs(D - D.T) > 1e-12 * np.maximum(1.0, D)))[:5]:
             ctx.violation("symmetry", "SW(A,B) != SW(B,A)", observed=[D[i, j], D[j, i]],
                           case={"kind": "pair", "A": sp[i], "B": sp[j]})
-        tol = 3 * RT * 2 * 6
+        tol = 3e-9
         for i in range(N):
             viol = np.argwhere(D[i][None, :] > D[i][:, None] + D + tol)
             for j, k in viol[:3]:
